@@ -34,6 +34,23 @@ def _peel(t):
     return t
 
 
+def _map_id(te, bb, t):
+    """the map a get/insert works on, without the borrow plumbing (RefCell borrow/borrow_mut, Deref, &mut locals)"""
+    t = strip(t)
+    for _ in range(8):
+        if isinstance(t, tuple) and t and t[0] == "mutref" and t[1] in te.state_in.get(bb, {}):
+            t = strip(te.state_in[bb][t[1]])
+        elif isinstance(t, tuple) and t and t[0] == "mut" and getattr(t[2], "name", "") in ("deref_mut", "borrow_mut", "deref", "borrow", "as_mut", "get_mut"):
+            t = strip(t[3])
+        elif any(mir.is_call(t, n_) for n_ in ("deref_mut", "borrow_mut", "deref", "borrow", "as_mut", "as_ref")) and t[2]:
+            t = strip(t[2][0])
+        elif isinstance(t, tuple) and t and t[0] in ("deref", "ref"):
+            t = strip(t[1])
+        else:
+            break
+    return show(t)
+
+
 def specialise(te, t, p, s):
     """resolve every choice on the sign of parameter p in t for sign s (0 regular, 1 complemented)"""
     def is_sign_test(c):
@@ -139,8 +156,9 @@ def run(prog):
             continue
         for g in gets:
             m = _peel(g.args[0])
+            mid = _map_id(te, g.bb, g.args[0])
             ins = [cs for cs in te.calls if cs.callee.name == "insert" and "HashMap" in cs.callee.key() and len(cs.args) == 3
-                   and _peel(cs.args[0]) == m]
+                   and (_peel(cs.args[0]) == m or _map_id(te, cs.bb, cs.args[0]) == mid)]
             if not ins:
                 continue
             ret_t = canon.beta(prog, te.ret)
@@ -152,6 +170,10 @@ def run(prog):
                 return canon.is_payload(x) and mir.is_call(strip(x[1][1]), "get") and show(_peel(strip(x[1][1])[2][0])) == show(m)
             # the pointer parameter: a parameter the key is built from
             ps = sorted({x[1] for x in mir.subterms(g.args[1]) if x[0] == "param"})
+            if len(ps) != 1:
+                # a composite key (pointer, variable, value): the signed pointer is the pointer-typed component
+                ps = [i for i in ps if isinstance(i, int) and i < len(f.locals) and
+                      any(n_ in f.locals[i]["s"] for n_ in ("BddPtr", "SddPtr"))]
             if len(ps) != 1:
                 continue
             p = ("param", ps[0])
